@@ -241,6 +241,9 @@ def interpret(h):
                 if d["comps"] and d["role"] != "n2":
                     role = "n2" if d["role"] in ("n", "nm") else ("nm" if d["shape"] else "n")
                     _add(g, "n." + n, role, d["rep"], None, [(n, "shift", None)])
+                    if d["role"] in ("c", "s"):
+                        # a second user of the same nested composite (filters memoise per base glyph)
+                        _add(g, "nb." + n, role, d["rep"], None, [(n, "id", None)])
         elif op == "mixed":
             have_c = [n for n, d in g.items() if d["role"] == "c"]
             for r, b in enumerate(REP):
